@@ -197,6 +197,65 @@ fn check_case_inner(case: &Case) -> CaseResult {
             return Err(Fail::new("reader:clone-diverges", format!("a clone taken before record #{fork_at} returns an extra record of {} bytes at {r:?}", io.total_size())));
         }
     }
+    // One judge, several streams (a judge made once and used for every file): the same judge
+    // object now reads a second stream - small valid records, with a valid one at every offset
+    // where the first stream had a segment - through a fresh StreamReader.
+    {
+        let mut second = vec![];
+        let mut starts: Vec<usize> = segments.iter().map(|s| s.start).collect();
+        starts.push(stream.len() + 2);
+        for (k, at) in starts.iter().enumerate() {
+            // Pad up to `at` with delimiters (and one filler record when the gap is odd), then a record.
+            while second.len() + 2 <= *at {
+                if (*at - second.len()) % 2 == 1 && *at - second.len() >= 5 {
+                    second.extend_from_slice(&[0x01, 0x70]); // a one-byte record "p"
+                    second.push(0xFE);
+                    second.push(0xFD);
+                    continue;
+                }
+                second.extend_from_slice(&[0xFE, 0xFD]);
+            }
+            if second.len() == *at {
+                second.extend_from_slice(&hcobs_ref::encode(&[0x61 + (k % 20) as u8, 0x62], LIMIT_FIRST, LIMIT_LATER));
+                second.extend_from_slice(&[0xFE, 0xFD]);
+            }
+        }
+        let (ranges2, _) = hcobs_ref::split_stream(&second);
+        let mut expected2: Vec<(Vec<u8>, std::ops::Range<u64>)> = vec![];
+        for (a, b) in ranges2.iter().filter(|(a, b)| b > a) {
+            if let Some(l) = limit {
+                if *a as u64 >= l {
+                    break;
+                }
+            }
+            if let Ok(d) = hcobs_ref::decode(&second[*a..*b], LIMIT_FIRST, LIMIT_LATER) {
+                if d.len() <= max_size {
+                    expected2.push((d, *a as u64..*b as u64));
+                }
+            }
+        }
+        let plain_delivery = Delivery { script: vec![], cyclic: false, ..case.delivery.clone() };
+        let mut reader2 = CyclicReader::new(&second, &plain_delivery);
+        let mut sr2 = StreamReader::new();
+        for (j, (want_bytes, want_range)) in expected2.iter().enumerate() {
+            let got = sr2.next_record_bytes(&mut reader2, &judge, block).map_err(|e| Fail::new("reader:io-error", e.to_string()))?;
+            let same = match &got {
+                Some((iovec, range)) => iovec.flatten().map(|b| b == *want_bytes).unwrap_or(false) && range == want_range,
+                None => false,
+            };
+            if !same {
+                return Err(Fail::new(
+                    "reader:judge-remembers",
+                    format!(
+                        "the same judge object (max size {max_size}, limit {limit:?}), having read one stream, reads a second one ({}): record #{j} should be {} at {want_range:?}, got {:?}",
+                        show(&second),
+                        show(want_bytes),
+                        got.as_ref().map(|(io, r)| (io.total_size(), r.clone()))
+                    ),
+                ));
+            }
+        }
+    }
     let nontrivial = (expected.len() >= 2 && interleaved) || (reader.split_sentinels > 0 && !expected.is_empty());
     Ok(Outcome::new(nontrivial)
         .label_if(interleaved, "valid_records_around_skipped_ones")
@@ -467,7 +526,7 @@ fn replay(_ctx: &Ctx, group: &str, case: &Value) -> CaseResult {
 pub fn def() -> PropDef {
     PropDef {
         id: "C06",
-        rule: "A case is (stream description, delivery, judge parameters): streams and deliveries as in C08 (records, torn and corrupted records, garbage, lone FE, 0..3 delimiters after each token, whole-stream truncation; scripted short reads / EINTR, block sizes {0,1,2,3,4,5,7,8,64,4096,70000,default}, arena preparation); in one delivery out of four every next_record_bytes call gets its own io_block_size; the standard judge gets a size limit placed at the decoded size of some valid record -1/0/+1 and an offset limit placed at the start of some segment -1/0/+1 (or none). Oracle: split the stream at every FE FD with an independent splitter, keep non-empty segments up to the first one starting at or after the limit, keep those the reference decoder accepts with decoded size <= max; next_record_bytes must return exactly that list of (bytes, byte range), then None three times, without error or panic; last_sentinel_offset is the start of the last delimiter read. A small log truncated at every byte is enumerated; long-streams uses up to 70 tokens (several arena chunks' worth of records) with block sizes 3..4096, so that reads cross arena chunk boundaries in many alignments; block-aligned-tails lays out valid filler records so that a record with a 00 00 final header (252- or 504-byte payload) or a short record ends 0..4 bytes around an I/O block boundary (blocks 64 / 100 / 256 / 1000 / 2048 / 4096), with the arena flushed between records through the returned record's arena(). large-records: 1..4 tokens built on payloads of up to 140000 bytes (one in nine of 0.5..1.3 MB: more than a default I/O block and than the arena's largest chunk), valid, torn or corrupted, block sizes >= 64 and default. transient-eof: the reader now and then returns Ok(0) with bytes left and goes on later; what becomes of a record cut in two that way is not specified, so only this is checked: each returned record is exactly the reference decoding of the segment its byte range designates, ranges go forward, nothing panics, the stream ends up read. Before one generated record the StreamReader is cloned together with the underlying reader's position; the clone must go on to return the same records. Non-trivial: >= 2 returned records with a skipped (invalid / oversized / empty-payload) segment between two of them, or a read that split an FE|FD pair in a stream with at least one returned record. Distinct: hash of the serialised case.",
+        rule: "A case is (stream description, delivery, judge parameters): streams and deliveries as in C08 (records, torn and corrupted records, garbage, lone FE, 0..3 delimiters after each token, whole-stream truncation; scripted short reads / EINTR, block sizes {0,1,2,3,4,5,7,8,64,4096,70000,default}, arena preparation); in one delivery out of four every next_record_bytes call gets its own io_block_size; the standard judge gets a size limit placed at the decoded size of some valid record -1/0/+1 and an offset limit placed at the start of some segment -1/0/+1 (or none). Oracle: split the stream at every FE FD with an independent splitter, keep non-empty segments up to the first one starting at or after the limit, keep those the reference decoder accepts with decoded size <= max; next_record_bytes must return exactly that list of (bytes, byte range), then None three times, without error or panic; last_sentinel_offset is the start of the last delimiter read. A small log truncated at every byte is enumerated; long-streams uses up to 70 tokens (several arena chunks' worth of records) with block sizes 3..4096, so that reads cross arena chunk boundaries in many alignments; block-aligned-tails lays out valid filler records so that a record with a 00 00 final header (252- or 504-byte payload) or a short record ends 0..4 bytes around an I/O block boundary (blocks 64 / 100 / 256 / 1000 / 2048 / 4096), with the arena flushed between records through the returned record's arena(). large-records: 1..4 tokens built on payloads of up to 140000 bytes (one in nine of 0.5..1.3 MB: more than a default I/O block and than the arena's largest chunk), valid, torn or corrupted, block sizes >= 64 and default. transient-eof: the reader now and then returns Ok(0) with bytes left and goes on later; what becomes of a record cut in two that way is not specified, so only this is checked: each returned record is exactly the reference decoding of the segment its byte range designates, ranges go forward, nothing panics, the stream ends up read. Before one generated record the StreamReader is cloned together with the underlying reader's position; the clone must go on to return the same records. The judge object is then used again, by a fresh StreamReader, on a second stream that has a small valid record at every offset where the first stream had a segment: a judge is a function of what it is shown, not of what it has seen. Non-trivial: >= 2 returned records with a skipped (invalid / oversized / empty-payload) segment between two of them, or a read that split an FE|FD pair in a stream with at least one returned record. Distinct: hash of the serialised case.",
         assumptions: &[
             "only the standard judge (chunk_judge) is modelled",
             "readers only deliver short reads and Interrupted errors",
